@@ -3,7 +3,7 @@
    buffer as state, copy_line, the blanking of the buffer tail, record handlers reading at fixed columns).
    Proofs: Pdb/Hy36Proofs.v, Pdb/RecordsProofs.v. *)
 From GV Require Import Base.Str Pdb.Hy36 Pdb.Records Pdb.Hy36Proofs Pdb.RecordsProofs.
-From GV Require Import Pdb.AtomLine Pdb.AtomLineProofs Pdb.AtomFmt_gen Pdb.AtomFmt Pdb.Cryst1.
+From GV Require Import Pdb.AtomLine Pdb.AtomLineProofs Pdb.AtomFmt_gen Pdb.AtomFmt Pdb.Cryst1 Pdb.HelixLine Pdb.SheetLine.
 Local Open Scope Z_scope.
 
 (* atom serial numbers: the whole hybrid-36 range survives its 5-column field, whatever follows the field *)
@@ -112,3 +112,84 @@ Theorem C06_cryst1_roundtrip : forall a b c al be ga hm z rest,
     read_cryst (line ++ rest) 81 = ([a; b; c; al; be; ga], match hm with [] => P1 | _ => hm end, z).
 Proof. exact cryst1_roundtrip. Qed.
 Print Assumptions C06_cryst1_roundtrip.
+
+(* HELIX: the line the format string of the source produces (with columns 72-76 blanked when the length is not
+   given) is 80 columns + newline and the record handler (do_helix of Pdb/Records.v, the model that is compared
+   with gemmi on whole files) reads back both residue addresses, the class and the length, for every fitting helix *)
+Theorem C06_helix_roundtrip : forall h, fits_hx h ->
+  exists line, helix_line h = Some line /\ length line = 81%nat /\
+  forall s rest, do_helix s (line ++ rest) 81 = helix_result s h (if x_len h <? 0 then -1 else x_len h).
+Proof. exact helix_roundtrip. Qed.
+Print Assumptions C06_helix_roundtrip.
+
+(* PADDING AND LINE ENDS, HELIX: whatever follows column 40 and whatever the line length (>= 40), both residue
+   addresses and the class come from columns 1-40 alone; so when the length is not given the line may end anywhere
+   from column 40 to column 72, and when it is given the line may end right after it (LF, CR or NUL next): the
+   record is read exactly as from the full 80 columns *)
+Theorem C06_helix_padding_no_length : forall h, fits_hx h -> x_len h < 0 ->
+  forall s rest len, (40 <= len <= 72)%nat ->
+  do_helix s (concat (helix_head h) ++ rest) len = helix_result s h (-1).
+Proof. exact helix_padding_no_length. Qed.
+Print Assumptions C06_helix_padding_no_length.
+
+Theorem C06_helix_padding_with_length : forall h, fits_hx h -> 0 <= x_len h ->
+  forall s c0 rest len, is_term c0 = true -> (72 < len)%nat ->
+  do_helix s (concat (helix_head h) ++ repeat 32 32 ++ rjust 4 (print_dec (x_len h)) ++ c0 :: rest) len =
+  helix_result s h (x_len h).
+Proof. exact helix_padding_with_length. Qed.
+Print Assumptions C06_helix_padding_with_length.
+
+Theorem C06_helix_example : fits_hx ex_helix /\
+  helix_line ex_helix = Some ([72;69;76;73;88;32;32;32;49;50;32;32;49;50;32;65;76;65;32;65;32;32;32;45;51;66;32;48;80;82;65;65;32;65;48;48;48;32;32;53]
+                              ++ repeat 32 40 ++ [10]).
+Proof. exact ex_helix_fits. Qed.
+Print Assumptions C06_helix_example.
+
+(* PADDING AND LINE ENDS, ATOM / HETATM (the second sentence of the property, for the record that carries the model):
+   columns 1-78 of the line gemmi writes, followed by ANY two bytes d1 d2 in a line of any length > 78, give back every
+   field but the charge from columns 1-78 alone ... *)
+Theorem C06_atom_record_head : forall t xyz occ b d1 d2 len rest, fits t xyz occ b -> (78 < len)%nat ->
+  read_atom (concat (atom_head t xyz occ b) ++ [d1; d2] ++ rest) len =
+  mkRd (t_het t) (t_serial t) (t_name t) (t_altloc t) (t_resname t) (t_chain t) (Some (t_seqnum t), t_icode t)
+       (t_segment t)
+       (Some (match t_el t with [e] => (32, e) | [e1; e2] => (e1, e2) | _ => (0, 0) end))
+       (read_charge d1 d2) xyz occ b.
+Proof. exact atom_head_read. Qed.
+Print Assumptions C06_atom_record_head.
+
+(* ... hence a record with blank charge columns is read identically when its two trailing blanks are stripped (LF then
+   NUL in columns 79-80), when CR LF follows column 78, when one blank is left before LF or CR, and when it is complete;
+   the full line is columns 1-78 plus two blanks (atom_line_neutral) *)
+Theorem C06_atom_record_padding : forall t xyz occ b d1 d2 len rest rest', fits t xyz occ b -> t_charge t = 0 ->
+  neutral_tail d1 d2 -> (78 < len)%nat ->
+  read_atom (concat (atom_head t xyz occ b) ++ [d1; d2] ++ rest) len = read_atom (atom_line t xyz occ b ++ rest') 81.
+Proof. exact atom_line_padding. Qed.
+Print Assumptions C06_atom_record_padding.
+
+Theorem C06_atom_line_neutral : forall t xyz occ b, t_charge t = 0 ->
+  atom_line t xyz occ b = concat (atom_head t xyz occ b) ++ [32; 32].
+Proof. exact atom_line_neutral. Qed.
+Print Assumptions C06_atom_line_neutral.
+
+(* SHEET: the 80-column line that the format string of the source produces for a strand (with or without the two
+   registration atoms) is read back by do_sheet exactly: sheet id, both residue addresses, sense, and the two atom
+   addresses (no address when they are not given) *)
+Theorem C06_sheet_roundtrip : forall t, fits_st t ->
+  exists line, sheet_line t = Some line /\ length line = 80%nat /\
+  forall s rest, do_sheet s (line ++ rest) 81 = sheet_result s t (fst (hb_addrs t)) (snd (hb_addrs t)).
+Proof. exact sheet_roundtrip. Qed.
+Print Assumptions C06_sheet_roundtrip.
+
+(* PADDING, SHEET without registration atoms: the line may end anywhere from column 40 to column 67 *)
+Theorem C06_sheet_padding_no_hbond : forall t, fits_st t -> st_hb t = None ->
+  forall s rest len, (40 <= len <= 67)%nat ->
+  do_sheet s (concat (sheet_head t) ++ rest) len = sheet_result s t no_addr no_addr.
+Proof. exact sheet_padding_no_hbond. Qed.
+Print Assumptions C06_sheet_padding_no_hbond.
+
+Theorem C06_sheet_example : fits_st ex_strand /\
+  sheet_line ex_strand = Some
+    [83;72;69;69;84;32;32;32;32;50;32;32;32;65;32;51;32;84;89;82;32;65;32;32;49;48;32;32;71;76;89;32;65;32;32;49;53;65;45;49;
+     32;32;79;32;32;76;69;85;32;65;32;32;49;50;32;32;32;78;32;32;86;65;76;32;65;32;32;32;51;32;32;32;32;32;32;32;32;32;32;32].
+Proof. exact ex_strand_fits. Qed.
+Print Assumptions C06_sheet_example.
